@@ -53,8 +53,8 @@ func storePath(st *ssa.Store) string { return valuePath(st.Addr) }
 func ruleTxTypestate(c *Ctx, r *Report, rule string) {
 	f := c.Sync
 	pos := c.pos(f.Pos())
-	begins := findCalls(f, "database/sql.(*DB).BeginTx")
-	begins = append(begins, findCalls(f, "database/sql.(*DB).Begin")...)
+	begins := findCalls(f, "database/sql.DB.BeginTx")
+	begins = append(begins, findCalls(f, "database/sql.DB.Begin")...)
 	if len(begins) != 1 {
 		r.viol(rule, "sync root begins exactly one transaction per block", pos, fmt.Sprintf("found %d BeginTx/Begin calls in %s", len(begins), fname(f)))
 		return
@@ -83,14 +83,27 @@ func ruleTxTypestate(c *Ctx, r *Report, rule string) {
 		return false
 	}
 	var commits, rollbacks []ssa.CallInstruction
-	for _, ci := range findCalls(f, "database/sql.(*Tx).Commit") {
+	for _, ci := range findCalls(f, "database/sql.Tx.Commit") {
 		if onT(ci) {
 			commits = append(commits, ci)
 		}
 	}
-	for _, ci := range findCalls(f, "database/sql.(*Tx).Rollback") {
+	for _, ci := range findCalls(f, "database/sql.Tx.Rollback") {
 		if onT(ci) {
 			rollbacks = append(rollbacks, ci)
+		}
+	}
+	// a helper introduced after the reference tree that always rolls back the transaction it is given
+	// stands for the Rollback at its call site
+	for _, ci := range callsOf(f) {
+		sc := ci.Common().StaticCallee()
+		if sc == nil || !isNewHelper(sc) || !onT(ci) {
+			continue
+		}
+		for i, a := range ci.Common().Args {
+			if a == T && mustCallOnParam(sc, i, "database/sql.Tx.Rollback") {
+				rollbacks = append(rollbacks, ci)
+			}
 		}
 	}
 	if len(commits) != 1 {
